@@ -441,6 +441,8 @@ impl<'a> Gen<'a> {
                         const POOL: &[&[u32]] = &[
                             &[0x61, 0x62], &[0x41, 0x42], &[0x61, 0x42], &[0x6B, 0x4B], &[0x212A, 0x6B], &[0x17F, 0x73], &[0x53, 0x73],
                             &[0xE9, 0x61], &[0xC9, 0x41], &[0x10428, 0x61], &[0x10400, 0x41],
+                            // ending in a cased Latin-1 letter (whose code point is also a UTF-8 lead byte value)
+                            &[0x61, 0xE9], &[0x78, 0xF0], &[0x41, 0xC9], &[0x62, 0xE2],
                         ];
                         strs.push(self.rng.pick(POOL).to_vec());
                         continue;
